@@ -18,6 +18,8 @@ use crate::rng::Rng;
 pub const MAX_THREADS: usize = 8;
 const NONE: usize = usize::MAX;
 pub const STEP_COST_NS: u64 = 5_000;
+/// simulated cost of one whole-file read or write
+pub const IO_COST_NS: u64 = 200_000;
 
 thread_local! {
     static TID: Cell<usize> = const { Cell::new(NONE) };
@@ -172,6 +174,7 @@ pub struct Counters {
     pub clock_jumps: u64,
     pub reentrant_reads: u64,
     pub max_nesting: u64,
+    pub io_points: u64,
 }
 
 #[derive(Clone, Debug)]
@@ -731,6 +734,7 @@ impl Engine {
         *st = State::new(cfg);
         st.running = true;
         autosar_data::verif::reset_lock_ids(1);
+        crate::simfs::reset();
     }
 
     /// end a run and take its state (findings, counters, decisions, trace)
@@ -785,6 +789,27 @@ impl Engine {
             st.op_try_timed = 0;
             st.published_below = autosar_data::verif::peek_next_lock_id();
             st.ev_plain(tid, "op-start");
+        }
+        let out = self.yield_point(tid, Status::AtPoint(None));
+        if out == Outcome::Abort {
+            std::panic::resume_unwind(Box::new(SimAbort));
+        }
+    }
+
+    /// a file-system access of the calling client: costs simulated time and is a point where the scheduler may switch
+    pub fn io_point(&self) {
+        let tid = TID.with(|t| t.get());
+        if tid == NONE {
+            return;
+        }
+        {
+            let mut st = self.st();
+            if !st.running {
+                return;
+            }
+            st.clock += IO_COST_NS;
+            st.counters.io_points += 1;
+            st.ev_plain(tid, "io");
         }
         let out = self.yield_point(tid, Status::AtPoint(None));
         if out == Outcome::Abort {
